@@ -540,6 +540,13 @@ def step_harnesses():
                                "DebruijnGraph::sequence_of_path", "Exts::from_single_dirs", "Exts::complement",
                                "ScmapCompress::reduce" if je else "SimpleCompress::reduce"],
                         bounds="%d-node graph, lengths %s over %s: all bases, extension sets, payloads, availability subsets containing the seed, stranded/unstranded, every seed node; %s; every examined extension resolves to a node with >=1 facing extension" % (nn, lens, tag, GV)))
+    # a longer second node: the only way (inside small bounds) for ONE node side to reach the SAME
+    # neighbour twice — once through its left end, once (reverse-complemented) through its right end
+    hs.append(H("c03_find_edges__kmer3__l3_5", ["C03"],
+                "crate::step_ops::find_edges::<%s, 2, 5>([3, 5])" % KT_BY_TAG["kmer3"][1], unwind=14, cap=900, mem=8,
+                stubs=["S1", "S2", "S7"], tier="quick",
+                funcs=["DebruijnGraph::find_edges", "Node::edges", "Node::l_edges", "Node::r_edges"],
+                bounds="2-node graph, lengths (3, 5) over kmer3: all bases, all extension sets, every node and side; %s" % GV))
     for tag, lens, (a, b) in (("kmer3", (3, 4), (0, 1)), ("kmer3", (3, 4), (1, 0)), ("kmer3", (4, 4), (0, 0)), ("kmer4", (4, 5), (0, 1)), ("kmer4", (5, 4), (1, 1))):
         ty, k = KT_BY_TAG[tag][1], KT_BY_TAG[tag][2]
         hs.append(H("c09_sequence_of_path__%s__l%d_%d__p%d%d" % (tag, lens[0], lens[1], a, b), ["C09", "C03"],
@@ -564,7 +571,7 @@ def walk_harnesses():
     """C01/C02: the growth loops of the k-mer-table compressor (hook H2b)."""
     hs = []
     VAL = "table validity assumed: distinct keys, canonical when unstranded, every examined link's target has >=1 extension on the facing side unless palindromic (the code's documented `unreachable`)"
-    for tag, ns in (("kmer4", (1, 2, 3)), ("kmer3", (2, 3)), ("kmer5", (2,)), ("kmer6", (2,))):
+    for tag, ns in (("kmer4", (2, 3)), ("kmer3", (2, 3)), ("kmer5", (2,)), ("kmer6", (2,))):
         ty, k = KT_BY_TAG[tag][1], KT_BY_TAG[tag][2]
         for n in ns:
             for je in (False, True):
